@@ -869,18 +869,26 @@ func (r *runningStep) executeSubWorkflows(input executeInput) ([]any, map[int]st
 		i := i
 		input := input
 		go func() {
+			slotAcquired := false
 			defer func() {
-				select {
-				case <-sem:
-				case <-r.ctx.Done(): // Must not deadlock if closed early.
+				// Only give back a slot that was taken: an aborted item must not free a slot for
+				// another item, or more than 'parallelism' items could run at once.
+				if slotAcquired {
+					<-sem
 				}
 				wg.Done()
 			}()
 			r.logger.Debugf("Queuing item %d...", i)
 			select {
 			case sem <- struct{}{}:
+				slotAcquired = true
 			case <-r.ctx.Done():
 				r.logger.Debugf("Aborting item %d execution.", i)
+				// An item that never ran has no result; report it as failed so that every item is
+				// accounted for in the output of the step.
+				r.lock.Lock()
+				itemErrors[i] = "aborted before execution because the step was closed"
+				r.lock.Unlock()
 				return
 			}
 
